@@ -64,6 +64,20 @@ func init() {
 			{Name: "feed-scripts", Timeout: 150 * time.Second, Count: func(t string) int { return tierN(t, 256, 3000) }, Run: func(c *sup.Ctx) {
 				feedScenario(c, rng.New(c.Seed, rng.HashString("C16"), uint64(c.Local)), false)
 			}},
+			{Name: "queued-terminator", Timeout: 60 * time.Second, Count: func(t string) int { return tierN(t, 12, 60) }, Run: func(c *sup.Ctx) {
+				kind := []int{life.FDump, life.FBackfillLive}[(c.Local/2)%2]
+				n, msg := life.QueuedTerminator(c.Tmp, c.Local%2 == 1, kind, 20+10*(c.Local%5))
+				c.Count("queued_terminator_probes", 1)
+				c.Cell(fmt.Sprintf("queued-terminator|%d|%v", kind, c.Local%2 == 1))
+				if msg != "" {
+					k, text := splitKind(msg)
+					if k == "setup" {
+						c.Incon(text)
+					} else {
+						c.Viol([]string{"C16"}, "feeds|queued|"+k, text, map[string]any{"callbacks_after_terminator": n})
+					}
+				}
+			}},
 			{Name: "feed-scripts-race", Race: true, Timeout: 200 * time.Second, Count: func(t string) int { return tierN(t, 32, 320) }, Run: func(c *sup.Ctx) {
 				feedScenario(c, rng.New(c.Seed, rng.HashString("C16race"), uint64(c.Local)), false)
 			}},
